@@ -80,7 +80,26 @@ class IntegerPowPlugin(PrimitiveLeafPlugin):
         if callable(producer) and producer() is not None:
             desired_name = ctx.fresh_name("ipow_out")
 
-        if np.issubdtype(target_dtype, np.integer) and 1 <= exponent <= 16:
+        if np.issubdtype(target_dtype, np.integer) and exponent == 0:
+            # x ** 0 == 1 for every integer x: x * 0 + 1 keeps the operand's shape and is valid
+            # for every integer type (ONNX Pow accepts int32 / int64 bases only).
+            one_dtype = _dtype_to_ir(target_dtype, ctx.builder.enable_double_precision)
+            one_shape = tuple(getattr(out_var.aval, "shape", ()))
+            zero_c = ctx.bind_const_for_var(object(), np.asarray(0, dtype=target_dtype))
+            one_c = ctx.bind_const_for_var(object(), np.asarray(1, dtype=target_dtype))
+            zeros = cast(
+                ir.Value,
+                ctx.builder.Mul(
+                    base_val, zero_c, _outputs=[ctx.fresh_name("ipow_zero")]
+                ),
+            )
+            zeros.type = ir.TensorType(one_dtype)
+            _stamp_type_and_shape(zeros, one_shape)
+            _ensure_value_metadata(ctx, zeros)
+            result = cast(
+                ir.Value, ctx.builder.Add(zeros, one_c, _outputs=[desired_name])
+            )
+        elif np.issubdtype(target_dtype, np.integer) and 1 <= exponent <= 16:
             # Integer bases: ONNX Pow accepts int32 / int64 only, and runtimes evaluate it in
             # floating point (inexact once the power overflows); repeated Mul is valid for every
             # integer type and wraps exactly like XLA's repeated multiplication.
